@@ -95,3 +95,33 @@ default_arg_clone = Unit(
     raises=[],
 )
 UNITS += [assign, default_arg_clone]
+
+# ---------------------------------------------------------------------------------------------------------
+# GenFunctions.process_return_this: the variant without result takes over the C and Fortran wrappers of the method; the
+# method itself keeps exactly its Python and Lua choice (those languages wrap the original, which can be chained).
+clear = Unit(
+    prop="C15", name="WrapFlags.clear", target="shroud/ast.py::WrapFlags.clear",
+    params={"self": WRAP}, modifies=["self"], ensures=["not self.%s" % f for f in FLAGS], raises=[],
+)
+
+
+def _noop_method(ref):
+    return VFun("Declaration.set_return_to_void[does not touch wrap flags]", lambda ex, st, args, kw, node: VNone())
+
+
+_FN2 = ("obj", "FunctionNode", {"wrap": WRAP, "_generated": "py", "ast": ("obj", "Declaration", {})})
+return_this = Unit(
+    prop="C15", name="GenFunctions.process_return_this[wrap flags]", target="shroud/generate.py::GenFunctions.process_return_this",
+    slice=('new._generated = "return_this"', "new.ast.set_return_to_void()"),
+    params={"node": _FN2, "new": _FN2},
+    callee_units={("WrapFlags", "assign"): assign, ("WrapFlags", "clear"): clear},
+    callees={("Declaration", "set_return_to_void"): _noop_method},
+    init="c0 = node.wrap.c\nf0 = node.wrap.fortran\np0 = node.wrap.python\nl0 = node.wrap.lua\n",
+    ensures=["new.wrap.c == c0 and new.wrap.fortran == f0", "not new.wrap.python and not new.wrap.lua",
+             "not node.wrap.c and not node.wrap.fortran",
+             # the method stays wrapped for the languages that wrap the original
+             "node.wrap.python == p0 and node.wrap.lua == l0"],
+    raises=[],
+)
+return_this.pure_callees = ["set_return_to_void"]
+UNITS += [clear, return_this]
